@@ -132,6 +132,42 @@ pub fn run_c09(ctx: &mut Ctx) -> (String, Value, Vec<String>) {
                             }
                         }
                     }
+                    // far windows (nanosecond time bases): the model's sbf is eventually periodic,
+                    // sbf(x + P) = sbf(x) + Q for x >= 2P — validated on the explored range, then
+                    // used to extend the model's answer
+                    let pu = p as usize;
+                    if !(2 * pu..=h - pu).all(|x| m[x + pu] == m[x] + q) {
+                        machinery_error(&format!("reservation automaton ({q},{dl},{p}): sbf is not periodic from 2P on"));
+                    }
+                    for far in [1_000_000_007u64, (1 << 40) + 1, (1 << 62) + 3] {
+                        let base = 2 * p + (far - 2 * p) % p;
+                        let want = m[base as usize] + (far - base) / p * q;
+                        evals += 1;
+                        match catch(|| su(sup.provided_service(d(far)))) {
+                            Ok(got) if got == want => {}
+                            Ok(got) => ctx.violation(&format!("{name}::provided_service#not-min-over-placements+far-window"), &format!("{name}({q},{dl},{p}).provided_service({far}) = {got}, the periodic extension of the minimum over all placements is {want}"), "sbf-case", json!({"spec": spec, "delta": far})),
+                            Err(e) => ctx.violation(&format!("{name}::provided_service#panic"), &format!("{name}({q},{dl},{p}).provided_service({far}) panicked: {e}"), "sbf-case", json!({"spec": spec, "delta": far})),
+                        }
+                    }
+                    for dem in [1_000_000_007u64, (1 << 40) + 1, (1 << 56) + 3] {
+                        let k = (dem - m[2 * pu] - 1) / q;
+                        let rest = dem - k * q;
+                        let x = (0..=h).find(|x| m[*x] >= rest).unwrap() as u64;
+                        let want = x + k * p;
+                        for (which, s) in [("", &sup), ("(default impl via opaque wrapper)", &opaque)] {
+                            evals += 1;
+                            match catch(|| du(s.service_time(crate::spec::s(dem)))) {
+                                Ok(got) if got == want => {}
+                                Ok(got) => ctx.violation(
+                                    &format!("{name}::service_time{}#not-exact-inverse+far-demand", if which.is_empty() { "" } else { "-default" }),
+                                    &format!("{name}({q},{dl},{p}).service_time({dem}) {which} = {got}, least t with sbf(t) >= {dem} is {want}"),
+                                    "sbf-case",
+                                    json!({"spec": spec, "demand": dem, "default": !which.is_empty()}),
+                                ),
+                                Err(e) => ctx.violation(&format!("{name}::service_time#panic"), &format!("{name}({q},{dl},{p}).service_time({dem}) {which} panicked: {e}"), "sbf-case", json!({"spec": spec, "demand": dem})),
+                            }
+                        }
+                    }
                     if samples.len() < 3 && p == 5 && q == 2 {
                         samples.push(json!({"reservation": spec, "automaton_states": ns, "sbf_model_prefix": &m[..12], "library_prefix": (0..12).map(|x| su(sup.provided_service(d(x)))).collect::<Vec<_>>()}));
                     }
@@ -174,7 +210,7 @@ pub fn run_c09(ctx: &mut Ctx) -> (String, Value, Vec<String>) {
         "samples": samples,
         "evaluations": evals,
         "distinct_nontrivial": nontrivial,
-        "rule": format!("every (Q,D,P) with P<={pmax}: reservation automaton explored, min service over all paths of every length <= 4P+3 compared with provided_service; service_time vs exact inverse for demands <= 4Q (specialised and default implementation); laws for P<={palg}; non-trivial = window lengths whose minimum service is strictly between 0 and delta"),
+        "rule": format!("every (Q,D,P) with P<={pmax}: reservation automaton explored, min service over all paths of every length <= 4P+3 compared with provided_service; service_time vs exact inverse for demands <= 4Q (specialised and default implementation); three far windows (up to 2^62) and three far demands (up to 2^56) against the periodic extension of the model sbf (periodicity validated on the explored range); laws for P<={palg}; non-trivial = window lengths whose minimum service is strictly between 0 and delta"),
         "automata_validated_against_literal_placements": validated,
         "exhaustive": true,
     });
@@ -539,11 +575,24 @@ pub fn replay_sbf(case: &Value) -> bool {
     let (m, ..) = r.sbf((6 * p + 10) as usize);
     if let Some(delta) = case.get("delta").and_then(|x| x.as_u64()) {
         let got = catch(|| su(spec.build().provided_service(d(delta))));
-        println!("replay: library {:?}, min over placements {}", got, m[delta as usize]);
-        return got != Ok(m[delta as usize]);
+        // beyond the explored range: periodic extension sbf(x + P) = sbf(x) + Q (x >= 2P)
+        let want = if (delta as usize) < m.len() {
+            m[delta as usize]
+        } else {
+            let base = 2 * p + (delta - 2 * p) % p;
+            m[base as usize] + (delta - base) / p * q
+        };
+        println!("replay: library {:?}, min over placements {}", got, want);
+        return got != Ok(want);
     }
     let dem = case["demand"].as_u64().unwrap();
-    let want = (0..m.len() as u64).find(|t| m[*t as usize] >= dem).unwrap();
+    let want = if dem <= m[m.len() - 1] {
+        (0..m.len() as u64).find(|t| m[*t as usize] >= dem).unwrap()
+    } else {
+        let k = (dem - m[2 * p as usize] - 1) / q;
+        let rest = dem - k * q;
+        (0..m.len() as u64).find(|t| m[*t as usize] >= rest).unwrap() + k * p
+    };
     let sup = if case["default"].as_bool().unwrap_or(false) { SupplySpec::Opaque(Box::new(spec.clone())).build() } else { spec.build() };
     let got = catch(|| du(sup.service_time(s(dem))));
     println!("replay: library {:?}, exact inverse {want}", got);
